@@ -302,6 +302,38 @@ type addStep struct {
 type buildCase struct {
 	Steps  []addStep
 	Probes []word
+	// HugeN > 0: the steps are HugeN seed-derived random words of 8..10 letters over a..z in sorted order, with a
+	// duplicate or an out-of-order word spliced in every few thousand steps (more than 65536 nodes and register entries)
+	HugeN    int    `json:",omitempty"`
+	HugeSeed uint64 `json:",omitempty"`
+}
+
+func (c buildCase) steps() []addStep {
+	if c.HugeN == 0 {
+		return c.Steps
+	}
+	set := map[word]bool{}
+	for i := 0; i < c.HugeN; i++ {
+		h := hashPrefix(c.HugeSeed, []int{i})
+		b := make([]byte, 8+int(h%3))
+		for j := range b {
+			h = h*6364136223846793005 + 1442695040888963407
+			b[j] = 'a' + byte((h>>33)%26)
+		}
+		set[word(b)] = true
+	}
+	ws := sortedWords(set)
+	steps := make([]addStep, 0, len(ws)+64)
+	for i, w := range ws {
+		steps = append(steps, addStep{W: w})
+		switch {
+		case i%3001 == 17:
+			steps = append(steps, addStep{W: w}) // duplicate
+		case i%4001 == 19:
+			steps = append(steps, addStep{W: ws[i/2]}) // out of order
+		}
+	}
+	return steps
 }
 
 func genBuildCase(t *rapid.T) buildCase {
@@ -317,6 +349,10 @@ func genBuildCase(t *rapid.T) buildCase {
 		n := rapid.IntRange(100, sz(400, 1200)).Draw(t, "manywords")
 		L := rapid.IntRange(7, 11).Draw(t, "L")
 		seed := rapid.Uint64().Draw(t, "wseed")
+		if Thorough && rare(t, "hugenodes", 3000) {
+			// thorough only: the Builder's register is a linear list, so a build with more than 65536 nodes takes about 20 s
+			return buildCase{HugeN: 22500, HugeSeed: seed, Probes: []word{"aaaaaaaa", "zzzzzzzzzz", "mmmmmmmmm"}}
+		}
 		for i := 0; i < n; i++ {
 			h := hashPrefix(seed, []int{i})
 			l := int(h%uint64(L)) + 1
@@ -403,7 +439,7 @@ func checkBuildCase(c buildCase, rec *Rec) error {
 	var accepted []word
 	rejectedThenAccepted := false
 	pendingReject := false
-	for i, st := range c.Steps {
+	for i, st := range c.steps() {
 		arg := []byte(st.W)
 		if st.W == "" && st.NilArg {
 			arg = nil
@@ -444,6 +480,13 @@ func checkBuildCase(c buildCase, rec *Rec) error {
 	}
 	if err := checkAutomaton(d, accepted, probesFor(accepted, c.Probes)); err != nil {
 		return fmt.Errorf("Builder: %v", err)
+	}
+	if c.HugeN > 0 {
+		rec.Label("more-than-65536-nodes")
+		if n := len(d.VerifNodes()); n <= 65536 {
+			return fmt.Errorf("harness: the huge word set gives only %d nodes", n)
+		}
+		return nil // one build of this size is all that is affordable
 	}
 	// Initialise makes the builder ready for use again: a second build (the same words in reverse script order is not
 	// valid, so: the accepted words once more) must give the same automaton
@@ -679,9 +722,14 @@ func genSearchCase(t *rapid.T) searchCase {
 	case 0: // wide nodes: twenty letters, so that nodes have far more than 8 links
 		alpha = []byte("abcdefghijklmnopqrst")
 	case 1: // long words: positions beyond 32 and 64
-		maxLen = rapid.SampledFrom([]int{34, 40, 70}).Draw(t, "maxlen")
+		maxLen = rapid.SampledFrom([]int{34, 40, 70, 70, 130, 260, 300}).Draw(t, "maxlen")
 	}
-	words := genWordSet(t, alpha, sz(14, 40), maxLen)
+	nwords := sz(14, 40)
+	if rare(t, "manywords", uint64(sz(40, 12))) {
+		nwords = rapid.SampledFrom([]int{260, 300, sz(300, 520), sz(300, 1100)}).Draw(t, "nwords") // more than 256, 512, 1024 results for a permissive query
+		maxLen = max(maxLen, 7)
+	}
+	words := genWordSet(t, alpha, nwords, maxLen)
 	if len(alpha) == 20 {
 		// make sure the root (and some second-level node) really is wide, with words below every letter
 		set := map[word]bool{}
@@ -881,6 +929,13 @@ func genGobCase(t *rapid.T) gobCase {
 	shape := rapid.SampledFrom([]string{"small", "small", "wide", "wide", "manynodes", "manynodes", "chain", "manywords", "mixed", "boundarycount"}).Draw(t, "shape")
 	set := map[word]bool{}
 	alpha := []byte{'a', 'b', 'c'}
+	if Thorough && rare(t, "hugenodes", 4000) {
+		// thorough only (one build takes about 20 s): more than 65536 nodes, so node indices need three bytes
+		shape = "hugenodes"
+		for _, st := range (buildCase{HugeN: 22500, HugeSeed: rapid.Uint64().Draw(t, "hugeseed")}).steps() {
+			set[st.W] = true
+		}
+	}
 	switch shape {
 	case "small":
 		alpha = genAlphabet(t)
